@@ -701,6 +701,13 @@ func (e *Engine) evalOpenOptions(pkg, rest string) (bool, string) {
 				if nstores > 1 {
 					val = "assigned more than once"
 				}
+				if want == "unset" {
+					// the field must keep its zero value (default): no store at all
+					if nstores != 0 {
+						return false, fmt.Sprintf("%s: bbolt.Open called with %s assigned, want the default (unset)", funcKey(fn), field)
+					}
+					continue
+				}
 				wantv := want
 				if want == "first" {
 					wantv = "true"
